@@ -3,7 +3,7 @@
 (* Which logged events are steps of the specification, per property.        *)
 (* e is one JSON event of the harness; P the property id.                   *)
 (***************************************************************************)
-EXTENDS Sem, SemConv, SemText, SemMath, EuclidAlg, FmtAlg
+EXTENDS Sem, SemConv, SemText, SemMath, SemBits, EuclidAlg, FmtAlg
 
 ArithExact(e) ==
   LET f == LF(e.L) IN
@@ -148,6 +148,8 @@ Accept(e, P) ==
   CASE e.k \in {"bin", "bini", "un"} -> AcceptArith(e, P)
     [] e.k = "pair"  -> AcceptPair(e)
     [] e.k = "math"  -> AcceptMath(e, P)
+    [] e.k = "bits"  -> AcceptBits(e)                       \* growth (G01)
+    [] e.k = "const" -> AcceptConst(e)                      \* growth (G02)
     [] e.k = "parse" -> AcceptParse(e, P)
     [] e.k = "fmt"   -> AcceptFmt(e)
     [] e.k = "cmp"   -> AcceptCmp(e)
